@@ -19,8 +19,10 @@ def legitFrom (c : Case) (canc : List Nat) : List Pop → Bool
   | .cancel _ f :: rest => legitFrom c (f :: canc) rest
   | _ :: rest => legitFrom c canc rest
 
-/-- … starting from the handles cancelled before the run (`Case.initCanc`) -/
-def Legit (c : Case) (tr : List Pop) : Prop := legitFrom c c.initCanc tr = true
+/-- … starting from the handles cancelled before the run (`Case.initCanc`); and the plan is well
+    formed: a partition names nodes of the one network it resolves to (`netWF`) -/
+def Legit (c : Case) (tr : List Pop) : Prop :=
+  netWF c.faults = true ∧ legitFrom c c.initCanc tr = true
 
 def everStep (ever : List Nat) : Pop → List Nat
   | .fault _ f true => f :: ever
@@ -49,6 +51,7 @@ theorem isPartK_of_isPartF {fs : List Fault} {f : Nat} {k : Kind} (hk : kindOf f
   cases k <;> simp_all [isPartK]
 
 theorem ginv_step (c : Case) (s : St) (ever act canc : List Nat) (p : Pop) (rest : List Pop)
+    (hn : netWF c.faults = true)
     (h : GInv c s ever act canc) (hwf : wfFrom c.faults ever act (p :: rest) = true)
     (hl : legitFrom c canc (p :: rest) = true) :
     GInv c (step c s p).1 (everStep ever p) (actStep c.faults act p) (cancStep canc p) ∧
@@ -156,10 +159,10 @@ theorem ginv_step (c : Case) (s : St) (ever act canc : List Nat) (p : Pop) (rest
       refine ⟨⟨h.w, h.nd, h.sub, h.firedA, h.firedD, ?_⟩, by simpa [wfFrom] using hwf,
         by simpa [legitFrom] using hl⟩
       simp [h.canc]
-    | healall t =>
+    | healall t k =>
       rw [step_healall]
       simp only [everStep, actStep, cancStep]
-      refine ⟨⟨winv_healall _ _ _ h.w, ?_, ?_, h.firedA, ?_, h.canc⟩, by simpa [wfFrom] using hwf,
+      refine ⟨⟨winv_healall _ _ _ k hn h.w, ?_, ?_, h.firedA, ?_, h.canc⟩, by simpa [wfFrom] using hwf,
         by simpa [legitFrom] using hl⟩
       · exact List.Nodup.sublist List.filter_sublist h.nd
       · intro g hg; exact h.sub g (List.mem_filter.mp hg).1
@@ -171,18 +174,19 @@ theorem ginv_step (c : Case) (s : St) (ever act canc : List Nat) (p : Pop) (rest
 def stateAt (c : Case) (tr : List Pop) (k : Nat) : St := final c (St.init c) (tr.take k)
 
 theorem ginv_run (c : Case) : ∀ (tr : List Pop) (s : St) (ever act canc : List Nat) (k : Nat),
+    netWF c.faults = true →
     GInv c s ever act canc → wfFrom c.faults ever act tr = true → legitFrom c canc tr = true →
     GInv c (final c s (tr.take k)) ((tr.take k).foldl everStep ever)
       ((tr.take k).foldl (actStep c.faults) act) ((tr.take k).foldl cancStep canc)
-  | _, s, ever, act, canc, 0, h, _, _ => by simpa [final] using h
-  | [], s, ever, act, canc, k + 1, h, _, _ => by simpa [final] using h
-  | p :: rest, s, ever, act, canc, k + 1, h, hwf, hl => by
-    obtain ⟨h', hwf', hl'⟩ := ginv_step c s ever act canc p rest h hwf hl
-    simpa [final] using ginv_run c rest _ _ _ _ k h' hwf' hl'
+  | _, s, ever, act, canc, 0, _, h, _, _ => by simpa [final] using h
+  | [], s, ever, act, canc, k + 1, _, h, _, _ => by simpa [final] using h
+  | p :: rest, s, ever, act, canc, k + 1, hn, h, hwf, hl => by
+    obtain ⟨h', hwf', hl'⟩ := ginv_step c s ever act canc p rest hn h hwf hl
+    simpa [final] using ginv_run c rest _ _ _ _ k hn h' hwf' hl'
 
 /-- **the window state is the projection of the active windows, at every point of every run** -/
 theorem inv_at (c : Case) (tr : List Pop) (k : Nat) (hwf : WF c.faults tr) (hl : Legit c tr) :
     WInv c.faults (stateAt c tr k).ws (activeAfter c.faults (tr.take k)) :=
-  (ginv_run c tr (St.init c) [] [] c.initCanc k (ginv_init c) hwf hl).w
+  (ginv_run c tr (St.init c) [] [] c.initCanc k hl.1 (ginv_init c) hwf hl.2).w
 
 end HappyModel.C06
